@@ -31,6 +31,7 @@ type Result struct {
 	Info       []string // informational notes (not violations)
 	Sub        int      // number of sub-evaluations (crash states, corruptions) if the case is a family
 	SubNT      int      // of which non-trivial
+	ReplayCase any      // if set, written to the replay file instead of the generated case (pins the failing family member)
 }
 
 func (r *Result) Class(c string)               { r.Classes = append(r.Classes, c) }
@@ -246,6 +247,9 @@ func replayDir() string {
 }
 
 func writeReplay(id string, c any, r *Result) string {
+	if r.ReplayCase != nil {
+		c = r.ReplayCase
+	}
 	b, err := json.Marshal(c)
 	if err != nil {
 		b = []byte(fmt.Sprintf("%q", fmt.Sprintf("unmarshalable case: %v", err)))
@@ -268,6 +272,9 @@ func journal(id string, c any) {
 	out, _ := json.Marshal(rf)
 	_ = os.WriteFile(p, out, 0o644)
 }
+
+// JournalSub lets an executor that enumerates a family journal the member it is about to run.
+func JournalSub(id string, c any) { journal(id, c) }
 
 func clearJournal() {
 	if p := os.Getenv("VERIF_JOURNAL"); p != "" {
